@@ -21,5 +21,6 @@ def run(col, configs, tier):
         guarded(col, X.rule_step_helper_agreement, facts)
         guarded(col, X.rule_jeaiii, facts)
         guarded(col, X.rule_chunk_padding, facts)
+        guarded(col, X.rule_u128_count_chunks, facts)
         from rules import c08
         guarded(col, c08.rule_mask_shift, facts)
